@@ -193,6 +193,7 @@ func ruleC06Extra(prog *Program, rep *Report) {
 	// with channel delivery the consumer reads a document while the parser works on the next: a recycled map (Reuse left on) is
 	// cleared under the reader - a fatal "concurrent map iteration and map write", not a recoverable panic
 	ruleArgParity(prog, rep, "oj.Parser", "gen.Parser", "sen.Parser")
+	ruleEntryParity(prog, rep, "oj.Parser", "gen.Parser", "sen.Parser") // a result channel or callback left over from an earlier call is sent to (closed: panic; unread: no return)
 	ruleRecoverFrames(prog, rep, []string{"oj", "sen", "gen", "jp", "asm", "alt", "pretty"}, "E-recover")
 	ruleUncheckedAssert(prog, rep)
 	ruleSiblingGuard(prog, rep, []string{"jp"})
